@@ -50,10 +50,13 @@ func shortFile(f string) string {
 
 func (fr *Frame) step(in ssa.Instruction) {
 	vc := fr.vc
+	fr.noteLeaks(in)
 	switch x := in.(type) {
 	case *ssa.DebugRef:
 	case *ssa.Alloc:
-		fr.set(x, fr.alloc(x.Type().(*types.Pointer).Elem(), x.Comment))
+		v := fr.alloc(x.Type().(*types.Pointer).Elem(), x.Comment)
+		fr.trackAlloc(x, v)
+		fr.set(x, v)
 	case *ssa.FieldAddr:
 		base := fr.val(x.X)
 		if base.P == nil {
@@ -418,6 +421,7 @@ func (fr *Frame) binop(x *ssa.BinOp) *Val {
 		return &Val{T: cmp(x.Op.String(), ta, tb), Typ: x.Type()}
 	}
 	if sortA == "Str" && x.Op == token.ADD {
+		vc.needStrCat()
 		r := fr.defineVal(x, "(str-cat "+ta+" "+tb+")")
 		vc.S.Assert(eq("(str-len "+r.T+")", add("(str-len "+ta+")", "(str-len "+tb+")")))
 		return r
